@@ -99,6 +99,10 @@ def make_types(rng):
         # raw values on spline knots (incl. the last one) as often as between them
         return f"{rng.choice([0, 64, 128, 255]):08b}" if rng.random() < 0.5 else rbits(rng, 8)
     spl = ["spline", "1", "1", [fnum(0), fnum(0)], [fnum(64), fnum(16)], [fnum(128), fnum(-8)], [fnum(256), fnum(8)]]
+    # coefficients with many significant digits (still dyadic: exact arithmetic, exact decimal text)
+    polyl = ["poly", [fnum(Fraction(8741, 32)), "0"], [fnum(Fraction(2469135, 2)), "1"], [fnum(Fraction(1, 1024)), "2"]]
+    add(PT("CALPL_T", ["pt", S("CALPL_T"), "plain", ["int", "8", S("unsigned"), S(MSB), [polyl, []]]], 8,
+           lambda rng, cv=None: rbits(rng, 8)))
     add(PT("CALS_T", ["pt", S("CALS_T"), "plain", ["int", "8", S("unsigned"), S(MSB), [spl, []]]], 8, knotty))
     spl0 = ["spline", "0", "0", [fnum(0), fnum(-40)], [fnum(64), fnum(-10)], [fnum(128), fnum(25)], [fnum(255), fnum(85)]]
     add(PT("CALS0_T", ["pt", S("CALS0_T"), "plain", ["int", "8", S("unsigned"), S(MSB), [spl0, []]]], 8, knotty))
@@ -219,15 +223,15 @@ class Defn:
                 ln = self._pname("LEN")
                 c.entries.append(("p", ln, self.types["U4_T"]))
                 fn = self._pname("DYN")
-                kind = rng.choice(["bin", "str", "binraw"])
+                kind = rng.choice(["bin", "str", "binraw", "strraw"])
                 tn = f"{fn}_T"
                 adj = ["8", "0"]
                 if self.neg_lengths and rng.random() < 0.5:
                     adj = rng.choice([["8", "-16"], ["-8", "16"], ["1", "-3"], ["8", "-8"]])
                 if self.adj_pool and rng.random() < 0.7:
                     adj = list(rng.choice(self.adj_pool))
-                if kind == "str":
-                    se = ["str", S("ISO-8859-1"), "-", S(ln), "-", "1", adj, "-", "-", "-"]
+                if kind in ("str", "strraw"):
+                    se = ["str", S("ISO-8859-1"), "-", S(ln), "-", B(kind == "str"), adj, "-", "-", "-"]
                 else:
                     se = ["bin", "-", S(ln), B(kind == "bin"), "-", adj]
                 pt = PT(tn, ["pt", S(tn), "plain", se], None, None, dyn=ln)
